@@ -125,6 +125,7 @@ def main(tier):
     rep.attempt(check_eob_always, rep, mod)
     rep.attempt(check_hist_width, rep, mod)
     rep.attempt(check_useable_schedule, rep, mod, K)
+    rep.attempt(check_rl_count, rep, mod)
     return rep.finish()
 
 
@@ -157,6 +158,67 @@ def check_table_cover(rep, mod):
                 R.check(re.match(r'^\d+$', cnt) is not None and int(cnt) == n, mod.where(f, i), '%s: %s fills %s entries of a table declared with %d: the remaining entries keep their memset value although the stored header '
                         'can advertise a code for them' % (fn, cal, cnt if re.match(r'^\d+$', cnt) else 'a run-time number of', n), key='L-TABLE-COVER|%s|%s|%d' % (fn, cal, n),
                         sample='%s: %s count %s == declared %d' % (fn, cal, cnt, n))
+
+
+def check_rl_count(rep, mod):
+    """write_rl emits the run-length coded code-length sequence of the dynamic header and, alongside, the histogram (counts[]) from which the code-length Huffman code is built.
+    A symbol that is emitted but not counted can end up with a zero-bit code: the stored header is unparsable although every table entry is right."""
+    R = rep.rule('R-RL-COUNT', 'write_rl: in every basic block, each code-length symbol stored into the .code field of an output entry (a constant 0 / 16 / 17 / 18, or the length parameter) is matched by increments of '
+                 'counts[that symbol] of the same total in the same block: what is emitted is what the code-length code is built from', floor=8, unit='emitting blocks')
+    f = mod.funcs.get('write_rl')
+    if f is None:
+        raise AnalysisBroken('write_rl not found')
+    pout, lastlen, counts = f.params[0][1], f.params[1][1], f.params[3][1]
+
+    def root(v, depth=0):
+        d = f.defs.get(v)
+        if d is None or depth > 12:
+            return v
+        if d.op in ('getelementptr', 'bitcast'):
+            return root(d.ops[0], depth + 1)
+        if d.op == 'phi':
+            rs = {root(x, depth + 1) for x, _ in d.extra['incoming']} - {v}
+            return rs.pop() if len(rs) == 1 else v
+        return v
+
+    def sym(v):
+        if re.match(r'^\d+$', v):
+            return int(v)
+        v2 = irrules._strip(f, v)
+        return 'len' if v2 == lastlen else None
+    n = 0
+    for b in f.order:
+        emitted, counted = {}, {}
+        first = None
+        for i in f.blocks[b].insns:
+            if i.op != 'store':
+                continue
+            d = f.defs.get(i.ops[1])
+            if d is None or d.op != 'getelementptr':
+                continue
+            idx = [x.split()[-1] for x in d.extra.get('idx', [])]
+            if root(i.ops[1]) == pout and 'rl_code' in d.extra.get('basety', '') and len(idx) == 2 and idx[1] == '0':
+                k = sym(i.ops[0])
+                if k is None:
+                    raise AnalysisBroken('write_rl: emitted symbol %s not understood' % i.ops[0])
+                emitted[k] = emitted.get(k, 0) + 1
+                first = first or i
+            elif root(i.ops[1]) == counts:
+                a = f.defs.get(i.ops[0])
+                if a is None or a.op != 'add' or not re.match(r'^\d+$', a.ops[1]):
+                    raise AnalysisBroken('write_rl: store to counts[] that is not an increment by a constant')
+                k = sym(idx[0]) if len(idx) == 1 else None
+                if k is None:
+                    raise AnalysisBroken('write_rl: counts[] index %s not understood' % idx)
+                counted[k] = counted.get(k, 0) + int(a.ops[1])
+        if not emitted and not counted:
+            continue
+        n += 1
+        R.instance()
+        R.check(emitted == counted, mod.where(f, first) if first is not None else mod.where(f, None), 'write_rl, block %s: emits %s but counts %s: a code-length symbol that is emitted without being counted can get a '
+                'zero-bit code in the code-length Huffman code, and the stored dynamic header cannot be parsed' % (b, emitted, counted), key='R-RL-COUNT|%s' % b, sample='block %s: %s emitted and counted' % (b, emitted))
+    if n == 0:
+        raise AnalysisBroken('write_rl: no emitting block found')
 
 
 def check_useable_schedule(rep, mod, K):
